@@ -1,9 +1,10 @@
 #!/bin/bash
 # usage: tools/confirm_seed.sh <Cnn> <n> "<demo test args>"   e.g. tools/confirm_seed.sh C06 1 "--lib link::datagram_tests"
+# (WT_BASE / OUT_BASE select another batch, e.g. WT_BASE=/tmp/wt2 OUT_BASE=/tmp/seeded2-out)
 # In the scratch worktree /tmp/wt-<Cnn>: (1) demo alone passes, (2) demo + patch fails, (3) patch alone passes the
 # whole existing suite (245 tests). Writes /tmp/seeded-out/<Cnn>/<n>/confirm.log and prints CONFIRMED / NOT-CONFIRMED.
 id="$1"; n="$2"; demo="$3"
-wt=/tmp/wt-$id; out=/tmp/seeded-out/$id/$n; log=$out/confirm.log
+wt=${WT_BASE:-/tmp/wt}-$id; out=${OUT_BASE:-/tmp/seeded-out}/$id/$n; log=$out/confirm.log
 cd $wt || exit 2
 git checkout -q -- . && git clean -fdq dnp3/src dnp3/tests 2>/dev/null
 : > $log
